@@ -9,6 +9,9 @@ from ..core import HarnessError
 ID = 'C09'
 TITLE = 'dt_bump: business days, calendar units, compound tenors'
 LEVEL = 'exploration'
+TECHNIQUE = 'runtime monitoring: independent stepping oracle (weekdays by walking day by day, months by explicit carry, own tenor tokenizer) + algebraic law monitors'
+LEVEL_TEXT = 'Thorough: every start day of 1900-2299 x every n in [-60,60] for b and m (exhaustive over that grid), q/y strided, sampled fixed units and compounds. A check says held on K observed executions, never verified.'
+LEVEL_NOTE = 'Trusted: datetime arithmetic and calendar.monthrange; month-based units claimed at midnight only.'
 RULE = ('a case is one start day pushed through every n in [-60,60] for unit b (and m; q,y strided) plus sampled fixed units, ints, timedeltas, intraday starts and '
         'random two/three-part compound tenors; quick: the days of 4 years + 600 random days; thorough: EVERY start day of 1900-01-01..2299-12-31 (exhaustive over days x n for b and m); '
         'non-trivial = start day on a weekend or month end (day>=29); distinct = distinct start day')
